@@ -10,6 +10,9 @@ the real call accepted / returned is recorded.  In "pressure" cases the kernel i
 (tiny SO_SNDBUF/SO_RCVBUF, a peer that reads slowly, payloads up to 1 MiB).  In "pair" cases both ends are hio
 objects, each under its own script.  In "late" cases the client is opened and tx() is called before its server listens
 (refused connects and the reconnect tymer replace the client's socket while bytes are queued), then the listener comes up.
+In "duplex" cases both directions carry 256 KiB..1 MiB at once through 8-16 kB socket buffers and the far side does not read
+while it still has something to write; the hio end must keep reading although its own transmit backlog is stuck.
+The attached WireLog takes every (rxed, txed, samed) combination, memory or file backed, also reached via reopen().
 
 With T = concatenation of the payloads handed to tx() so far, after EVERY service call of the monitored end:
   conservation   T == bytes accepted by the real send() calls + bytes(txbs)          (nothing lost / duplicated / reordered)
@@ -57,18 +60,21 @@ REQUIRE = {
     "quick": {"conservation_checks": 3000, "partial_sends": 300, "send_blocks": 150, "short_reads": 150,
               "recv_blocks_injected": 100, "real_partial_sends": 5, "wirelog_checks": 200, "tls_cases": 40,
               "pair_cases": 10, "completed_cases": 300, "late_cases_completed": 40, "late_reopens_before_listen": 80,
-              "late_cases_reconnectable": 10},
+              "late_cases_reconnectable": 10, "duplex_cases_completed": 20, "duplex_rounds_far_side_writing_not_reading": 200,
+              "wirelog_configurations": 8, "wirelog_checks_samed_one_direction": 60, "wirelog_checks_file_backed": 8},
     "thorough": {"conservation_checks": 50000, "partial_sends": 5000, "send_blocks": 2500, "short_reads": 2500,
                  "recv_blocks_injected": 1500, "real_partial_sends": 100, "wirelog_checks": 2500, "tls_cases": 1000,
                  "pair_cases": 250, "completed_cases": 5000, "late_cases_completed": 400, "late_reopens_before_listen": 800,
-                 "late_cases_reconnectable": 100},
+                 "late_cases_reconnectable": 100, "duplex_cases_completed": 200,
+                 "duplex_rounds_far_side_writing_not_reading": 2000, "wirelog_configurations": 10,
+                 "wirelog_checks_samed_one_direction": 600, "wirelog_checks_file_backed": 80},
 }
 PEAK_COUNTERS = ("peak_finish_rounds", "peak_payload_bytes")
 
 ROLES = ["Client", "ClientTls", "Remoter", "RemoterTls"]
 STALL = 60          # consecutive rounds in which nothing at all moved => the connection is not making progress
 CONNECT_ROUNDS = 400
-NCASES = {"quick": 1200, "thorough": 20000}
+NCASES = {"quick": 1000, "thorough": 16000}
 
 
 # --------------------------------------------------------------------------
@@ -148,7 +154,25 @@ def _ops(rng, nops, cap=40000):
 
 def gen_case(rng, tier, flavor, role):
     tls = role.endswith("Tls")
-    case = {"flavor": flavor, "role": role, "bs": rng.choice([16, 1024, 8096, 8096, 16192])}
+    case = {"flavor": flavor, "role": role, "bs": rng.choice([16, 1024, 8096, 8096, 16192]), "wl": gen_wl(rng)}
+    if flavor == "pair":
+        case["wl_far"] = gen_wl(rng)
+    if flavor == "duplex":
+        # Both directions large at once and the far side does not read while it still has something to write
+        # (sendall-then-recv): the hio end holds a transmit backlog the peer is not draining and must keep READING,
+        # otherwise every kernel buffer fills and the healthy, continuously serviced connection stops for good.
+        big = rng.choice([1 << 19, 3 << 18, 1 << 20]) if tier == "thorough" else rng.choice([1 << 18, 3 << 17, 1 << 19])
+        case["bs"] = rng.choice([1024, 8096, 16192])
+        for k in ("sndbuf", "rcvbuf", "peer_rcvbuf", "peer_sndbuf"):
+            case[k] = rng.choice([8192, 16384])
+        ops = [["tx", ["rnd", rng.getrandbits(32), big]], ["pw", ["rnd", rng.getrandbits(32), big + rng.randint(-5000, 5000)]]]
+        for _ in range(rng.randint(2, 8)):
+            ops.append(["svc"] if rng.random() < 0.6 else ["pr", None])
+            if rng.random() < 0.2:
+                ops.append(["tx", _payload(rng, 3000)])
+        case["ops"] = ops
+        case["near"] = _scripts(rng, tls, heavy=False)
+        return case
     if flavor == "script":
         case["ops"] = _ops(rng, rng.randint(4, 36))
         case["near"] = _scripts(rng, tls)
@@ -198,6 +222,8 @@ def cases(tier, seed, shard, nshards):
         role = ROLES[(i + shard) % 4] if rng.random() < 0.75 else rng.choice(ROLES)
         if i == 0 or r < 0.03:
             yield gen_case(rng, tier, "pressure", role)
+        elif i == 2 or r < 0.06:
+            yield gen_case(rng, tier, "duplex", role)
         elif i == 1 or r < 0.11:
             yield gen_late(rng, tier)
         elif r < 0.21:
@@ -223,8 +249,53 @@ def mk_script(spec, label):
     return sh.Script(send=spec.get("send"), recv=spec.get("recv"), handshake=spec.get("hs"), label=label, nodelay=True)
 
 
-def mk_wl():
-    return wiring.WireLog(samed=False, filed=False, fmt=b'%(data)b', reopen=True)
+WL_DEFAULT = {"rxed": True, "txed": True, "samed": False, "filed": False, "via_reopen": False}
+
+
+def gen_wl(rng):
+    """Every (rxed, txed, samed) combination with at least one direction on, memory or (sometimes) file backed; a samed
+    log may also get there by reopen(rxed=False) / reopen(txed=False) on a log that started with both directions."""
+    if rng.random() < 0.45:
+        return dict(WL_DEFAULT)
+    rxed, txed = rng.choice([(True, True), (True, False), (False, True)])
+    return {"rxed": rxed, "txed": txed, "samed": rng.random() < 0.6, "filed": rng.random() < 0.06,
+            "via_reopen": not (rxed and txed) and rng.random() < 0.5}
+
+
+def mk_wl(spec=None):
+    spec = spec or WL_DEFAULT
+    kw = dict(samed=spec["samed"], filed=spec["filed"], fmt=b'%(data)b', name="vfc09", temp=True if spec["filed"] else False)
+    if spec["via_reopen"]:
+        wl = wiring.WireLog(rxed=True, txed=True, reopen=True, **kw)
+        wl.reopen(rxed=spec["rxed"], txed=spec["txed"])
+    else:
+        wl = wiring.WireLog(rxed=spec["rxed"], txed=spec["txed"], reopen=True, **kw)
+    return WlHandle(wl)
+
+
+class WlHandle:
+    """Closes the log AND removes a file backed log's temp directory even when WireLog.close() raises
+    (WireLog.flush() dereferences .rxl, which is None on a file backed log with rxed=False - not C09's subject)."""
+
+    def __init__(self, wl):
+        self.wl = wl
+
+    def close(self):
+        import os
+        import shutil
+        wl = self.wl
+        path = wl.dirPath if wl.filed else None
+        try:
+            wl.close(clear=bool(wl.filed))
+        except Exception:
+            for f in (wl.rxl, wl.txl):
+                try:
+                    if f is not None and not f.closed:
+                        f.close()
+                except Exception:
+                    pass
+        if path and os.path.isdir(path) and os.path.basename(path).startswith("test_"):
+            shutil.rmtree(path, ignore_errors=True)
 
 
 class Stream:
@@ -260,14 +331,19 @@ def first_diff(a, b):
 class RawFar:
     """Far side = harness-owned raw socket."""
 
-    def __init__(self, peer):
+    def __init__(self, peer, write_first=False):
         self.peer = peer
+        self.write_first = write_first   # sendall-then-recv: does not read as long as it has something left to write
+        self.rounds_not_reading = 0
 
     def write(self, data):
         self.peer.write(data)
 
     def pump(self, limit=None):
         self.peer.flush()
+        if self.write_first and self.peer.out:
+            self.rounds_not_reading += 1
+            return
         self.peer.drain(limit)
 
     def received(self):
@@ -394,30 +470,50 @@ class Mon:
         calls = self.script.calls
         if self.end.txbs and calls["send"] == before["send"]:
             return "tx"
-        if len(self.end.rxbs) < len(self.far.written()) and not self.far.pending() and calls["recv"] == before["recv"]:
-            return "rx"
+        if len(self.end.rxbs) < len(self.far.written()) and calls["recv"] == before["recv"]:
+            return "rx"   # the far side has written more than we hold and we have stopped reading
         return None
 
     def tx_done(self):
         return not self.end.txbs and len(self.far.received()) == len(self.T)
 
     def final_wirelog(self):
+        """Whenever a direction is switched on, its log equals the bytes that really crossed the socket in that direction
+        (a shared `samed` log with both directions on holds both, chunk by chunk in call order).  A direction that is
+        switched off is not judged."""
         ctx = self.ctx
-        if self.wl is None:
+        wl = self.wl
+        if wl is None:
             return
         ctx.count("wirelog_checks")
-        tx = self.wl.readTx()
-        rx = self.wl.readRx()
-        if tx != bytes(self.script.sent):
-            off = first_diff(tx or b"", self.script.sent)
-            ctx.violation("wirelog-tx:" + self.role,
-                          f"tx wire log has {len(tx or b'')} B, the socket accepted {len(self.script.sent)} B; first difference at "
-                          f"offset {off}", trace=self.trace())
-        if rx != bytes(self.script.recvd):
-            off = first_diff(rx or b"", self.script.recvd)
-            ctx.violation("wirelog-rx:" + self.role,
-                          f"rx wire log has {len(rx or b'')} B, recv() returned {len(self.script.recvd)} B; first difference at "
-                          f"offset {off}", trace=self.trace())
+        conf = f"rxed={wl.rxed} txed={wl.txed} samed={wl.samed} filed={wl.filed}"
+        ctx.seen("wirelog_configurations", [wl.rxed, wl.txed, wl.samed, wl.filed])
+        if not (wl.rxed and wl.txed and not wl.samed and not wl.filed):
+            ctx.count("wirelog_checks_nondefault_config")
+        if wl.samed and not (wl.rxed and wl.txed):
+            ctx.count("wirelog_checks_samed_one_direction")
+        if wl.filed:
+            ctx.count("wirelog_checks_file_backed")
+        both = wl.samed and wl.rxed and wl.txed
+        sc = self.script
+        if wl.txed:
+            tx = wl.readTx()
+            want = sc.wire if both else sc.sent
+            if tx != bytes(want):
+                off = first_diff(tx or b"", want)
+                ctx.violation("wirelog-tx:" + self.role,
+                              f"tx wire log ({conf}) {'is None' if tx is None else 'has %d B' % len(tx)}, the socket accepted "
+                              f"{len(sc.sent)} B{' (+ %d B received into the shared log)' % len(sc.recvd) if both else ''}; "
+                              f"first difference at offset {off}", trace=self.trace())
+        if wl.rxed:
+            rx = wl.readRx()
+            want = sc.wire if both else sc.recvd
+            if rx != bytes(want):
+                off = first_diff(rx or b"", want)
+                ctx.violation("wirelog-rx:" + self.role,
+                              f"rx wire log ({conf}) {'is None' if rx is None else 'has %d B' % len(rx)}, recv() returned "
+                              f"{len(sc.recvd)} B{' (+ %d B sent into the shared log)' % len(sc.sent) if both else ''}; "
+                              f"first difference at offset {off}", trace=self.trace())
 
 
 def guarded(ctx, role, fn, mon=None):
@@ -453,13 +549,15 @@ def _tune(sock, case):
     import socket as _s
     if case.get("sndbuf") and sock is not None:
         sock.setsockopt(_s.SOL_SOCKET, _s.SO_SNDBUF, case["sndbuf"])
+    if case.get("rcvbuf") and sock is not None:
+        sock.setsockopt(_s.SOL_SOCKET, _s.SO_RCVBUF, case["rcvbuf"])
 
 
 def connect_client_raw(case, ctx, cl):
     role = case["role"]
     tls = role.endswith("Tls")
     late = case.get("late")
-    wl = cl.add(mk_wl())
+    wl = cl.add(mk_wl(case.get("wl"))).wl
     tymist = tyming.Tymist(tock=0.125)
     if late:
         port = tk.quiet_port(_state["ports"])   # nobody listens there yet: connects are refused
@@ -522,20 +620,20 @@ def connect_client_raw(case, ctx, cl):
         raise RuntimeError(f"harness: {role} did not connect in {CONNECT_ROUNDS} rounds (peer error {peer and peer.error!r})")
     if sh.script_of(client.cs) is not script:
         raise RuntimeError("harness: client socket was replaced while connecting")
-    mon.far = RawFar(peer)
+    mon.far = RawFar(peer, write_first=case["flavor"] == "duplex")
     return [mon]
 
 
 def connect_remoter_raw(case, ctx, cl):
     role = case["role"]
     tls = role.endswith("Tls")
-    wl = cl.add(mk_wl())
+    wl = cl.add(mk_wl(case.get("wl"))).wl
     server = cl.add(tk.open_server(tcp, _state["ports"], tls=tls, wl=wl, bs=case["bs"], tymth=tyming.Tymist().tymen()))
     _tune(server.ss, case)  # accepted sockets inherit the listener's buffer sizes
     script = mk_script(case["near"], role)
     mine = []   # only OUR peer's accepted socket gets the script (other agents share this loopback)
     sh.expect_accept(server.ss, lambda addr: script if mine and addr == mine[0] else None)
-    peer = cl.add(tk.connect_peer(server.ha[1], tls=tls, rcvbuf=case.get("peer_rcvbuf")))
+    peer = cl.add(tk.connect_peer(server.ha[1], tls=tls, rcvbuf=case.get("peer_rcvbuf"), sndbuf=case.get("peer_sndbuf")))
     mine.append(peer.addr)   # hio accepts only inside the service calls below
     for _ in range(CONNECT_ROUNDS):
         guarded(ctx, role, server.service)
@@ -547,7 +645,7 @@ def connect_remoter_raw(case, ctx, cl):
         raise RuntimeError(f"harness: {role} was not accepted in {CONNECT_ROUNDS} rounds (peer error {peer.error!r})")
     end = server.ixes[peer.addr]
     mon = Mon(ctx, role, end, server.service, script, wl)
-    mon.far = RawFar(peer)
+    mon.far = RawFar(peer, write_first=case["flavor"] == "duplex")
     return [mon]
 
 
@@ -556,7 +654,7 @@ def connect_pair(case, ctx, cl):
     crole = case["role"]
     tls = crole.endswith("Tls")
     rrole = "RemoterTls" if tls else "Remoter"
-    wls, wlc = cl.add(mk_wl()), cl.add(mk_wl())
+    wls, wlc = cl.add(mk_wl(case.get("wl_far"))).wl, cl.add(mk_wl(case.get("wl"))).wl
     server = cl.add(tk.open_server(tcp, _state["ports"], tls=tls, wl=wls, bs=case["bs"], tymth=tyming.Tymist().tymen()))
     rscript = mk_script(case["far"], rrole)
     sh.expect_accept(server.ss, lambda addr: rscript if client.cs is not None and addr == client.cs.getsockname() else None)
@@ -686,6 +784,10 @@ def _run(case, ctx, cl):
         ctx.count("pressure_cases")
     if flavor == "late":
         ctx.count("late_cases_completed")
+    if flavor == "duplex":
+        ctx.count("duplex_cases_completed")
+        ctx.count("duplex_rounds_far_side_writing_not_reading", far.rounds_not_reading)
+        ctx.count("duplex_bytes_each_way", min(len(near.T), len(far.written())))
     nontrivial = False
     for m in mons:
         st = m.script.stats
